@@ -51,6 +51,11 @@ def install(E):
     def _lvl(E, a, ctx):
         return Enum('LevelFilter', 0)
 
+    @reg(E, 'yield_point', 'verif_hooks::yield_point', 'crate::verif_hooks::yield_point')
+    def _yield_point(E, a, ctx):
+        # the cfg(memcrs_verif) replay hook: a no-op unless a native driver installed a callback
+        return UNIT
+
     @reg(E, 'log::__private_api::log', 'Event::dispatch', 'log::__private_api::loc')
     def _nolog(E, a, ctx):
         return UNIT
